@@ -39,6 +39,7 @@ type verifRecServerTransport struct {
 	closed   int
 	discards int
 	queued   []*parser.Packet
+	onSend   func() // what writing to this transport costs (time passing, for instance)
 }
 
 func (t *verifRecServerTransport) Name() string {
@@ -58,6 +59,9 @@ func (t *verifRecServerTransport) QueuedPackets() []*parser.Packet {
 	return q
 }
 func (t *verifRecServerTransport) Send(p ...*parser.Packet) {
+	if t.onSend != nil {
+		t.onSend()
+	}
 	t.mu.Lock()
 	t.sent = append(t.sent, p...)
 	t.mu.Unlock()
